@@ -49,7 +49,7 @@ func (f *Frame) elemSet(st *State, s Val, n Term) (Term, *Sort, bool) {
 	if !ok {
 		return Term{}, nil, false
 	}
-	c := vc.get(st, vc.elemComps(el)[0])
+	c := vc.at(st, vc.elemComps(el)[0], s.arr())
 	row := Select(c, s.arr())
 	app := func(k Term) Term { return mk(setSort(es), fn, row, k) }
 	key := "es-unfold|" + row.S + "|" + n.S
@@ -57,6 +57,8 @@ func (f *Frame) elemSet(st *State, s Val, n Term) (Term, *Sort, bool) {
 		vc.declared[key] = true
 		prev := Sub(n, One)
 		vc.fact(Eq(app(n), Ite(Le(n, Zero), ConstArr(setSort(es), False), Store(app(prev), Select(row, prev), True))))
+		// a non-empty prefix has a member (witness: the first element)
+		vc.fact(Imp(Gt(n, Zero), Select(app(n), Select(row, Zero))))
 	}
 	return app(n), es, true
 }
@@ -151,5 +153,86 @@ func (f *Frame) appendFieldSetFacts(st *State, el types.Type, srcRow, srcLen, co
 		h := vc.get(st, comp)
 		app := func(r, k Term) Term { return mk(setSort(fs), fn, r, h, k) }
 		vc.fact(Eq(app(content, newLen), Store(app(srcRow, srcLen), Select(h, x), True)))
+	}
+}
+
+// Image sets: IS_m(row, n) = { m(row[i]) | i < n } for a pure method m of the
+// element type (its contract says "pure": the result is a function of the
+// receiver).
+
+func (vc *VC) pureMethod(el types.Type, method string) (ufn string, resSort *Sort, ok bool) {
+	n := namedOf(el)
+	if n == nil || n.Obj().Pkg() == nil {
+		return
+	}
+	fn := vc.eng.lookupFunc(n.Obj().Pkg().Name(), n.Obj().Name()+"."+method)
+	if fn == nil {
+		return
+	}
+	spec := vc.eng.specs.funcSpec(fn)
+	if spec == nil || !spec.Pure || fn.Signature.Results().Len() != 1 {
+		return
+	}
+	lay := layout(fn.Signature.Results().At(0).Type())
+	if len(lay) != 1 {
+		return
+	}
+	resSort = lay[0].Sort
+	ufn = vc.declareFun(fmt.Sprintf("uf|pure|%s|0|0", fnDisplayName(fn)), []*Sort{SInt}, resSort)
+	return ufn, resSort, true
+}
+
+func (vc *VC) isFun(el types.Type, method string) (fn string, ufn string, rs *Sort, ok bool) {
+	ufn, rs, ok = vc.pureMethod(el, method)
+	if !ok {
+		return
+	}
+	name := fmt.Sprintf("IS|%s|%s", typeKey(el), method)
+	first := !vc.declared[sym(name)]
+	fn = vc.declareFun(name, []*Sort{SArr(SInt, SInt), SInt}, setSort(rs))
+	if first {
+		a := Term{"a!q", SArr(SInt, SInt)}
+		n := Term{"n!q", SInt}
+		i := Term{"i!q", SInt}
+		app := func(r, k Term) Term { return mk(setSort(rs), fn, r, k) }
+		vc.fact(Forall([]Term{a}, Eq(app(a, Zero), ConstArr(setSort(rs), False)), []Term{app(a, Zero)}))
+		vc.fact(Forall([]Term{a, n, i}, Imp(And(Le(Zero, i), Lt(i, n)), Select(app(a, n), mk(rs, ufn, Select(a, i)))), []Term{app(a, n), Select(a, i)}))
+	}
+	return fn, ufn, rs, true
+}
+
+func (f *Frame) imageSet(st *State, s Val, method string, n Term) (Term, *Sort, bool) {
+	vc := f.vc
+	el := elemOf(s.T)
+	fn, ufn, rs, ok := vc.isFun(el, method)
+	if !ok {
+		return Term{}, nil, false
+	}
+	c := vc.at(st, vc.elemComps(el)[0], s.arr())
+	row := Select(c, s.arr())
+	app := func(k Term) Term { return mk(setSort(rs), fn, row, k) }
+	key := "is-unfold|" + fn + "|" + row.S + "|" + n.S
+	if !vc.declared[key] {
+		vc.declared[key] = true
+		prev := Sub(n, One)
+		vc.fact(Eq(app(n), Ite(Le(n, Zero), ConstArr(setSort(rs), False), Store(app(prev), mk(rs, ufn, Select(row, prev)), True))))
+		vc.fact(Imp(Gt(n, Zero), Select(app(n), mk(rs, ufn, Select(row, Zero)))))
+	}
+	return app(n), rs, true
+}
+
+func (f *Frame) appendImageSetFacts(st *State, el types.Type, srcRow, srcLen, content, newLen, x Term) {
+	vc := f.vc
+	pt, isPtr := el.Underlying().(*types.Pointer)
+	if !isPtr {
+		return
+	}
+	for _, m := range vc.eng.specs.imagesets[typeKey(pt.Elem())] {
+		fn, ufn, rs, ok := vc.isFun(el, m)
+		if !ok {
+			continue
+		}
+		app := func(r, k Term) Term { return mk(setSort(rs), fn, r, k) }
+		vc.fact(Eq(app(content, newLen), Store(app(srcRow, srcLen), mk(rs, ufn, x), True)))
 	}
 }
